@@ -160,6 +160,14 @@ func (c *Ctx) hasInstance(f *Obj, v Value) (bool, *Thrown) {
 // operand values (GetValue done). For && and || and "," the result is the
 // selected operand, unconverted.
 func (c *Ctx) Binary(op string, a, b Value) (Value, *Thrown) {
+	if c.Q.LoneSurrogateFFFD && op != "&&" && op != "||" && op != "," {
+		if a.K == String {
+			a.S = replaceLone(a.S)
+		}
+		if b.K == String {
+			b.S = replaceLone(b.S)
+		}
+	}
 	switch op {
 	case "+": // 11.6.1
 		pa, th := c.ToPrimitive(a, NoHint)
@@ -173,7 +181,7 @@ func (c *Ctx) Binary(op string, a, b Value) (Value, *Thrown) {
 		if pa.K == String || pb.K == String {
 			sa, _ := c.ToString(pa)
 			sb, _ := c.ToString(pb)
-			return Str(sa + sb), nil
+			return Str(Concat(sa, sb)), nil
 		}
 		na, _ := c.ToNumber(pa)
 		nb, _ := c.ToNumber(pb)
